@@ -16,7 +16,7 @@ for m in sorted(os.listdir(src)):
     if not os.path.isdir(d) or (only and m != only):
         continue
     for f in sorted(os.listdir(d)):
-        if f.startswith("refactor") and f.endswith(".diff"):
-            vs.append({"id": "%s-%s" % (m, f[len("refactor"):-len(".diff")]), "kind": "benign", "patch": os.path.join(d, f), "edits": []})
+        if (f.startswith("refactor") or f.startswith("add")) and f.endswith(".diff"):
+            vs.append({"id": "%s-%s" % (m, f[:-len(".diff")].replace("refactor", "")), "kind": "benign", "patch": os.path.join(d, f), "edits": []})
 out = selftest.run_variants(vs)
 print("%d refactorings, %d with alarms" % (len(out), sum(1 for r in out if not r["ok"])))
